@@ -475,6 +475,7 @@ def to_fpm_and_back(wavefunction, dx, efl, wavelength, fpm, fpm_dx, shift=(0, 0)
     if isinstance(fpm, Wavefront):
         fpm_samples = fpm.data.shape
         fpm_dx = fpm.dx
+        fpm = fpm.data  # ndarray * Wavefront is not defined
     else:
         if fpm_dx is None:
             raise ValueError('fpm was not a Wavefront and fpm_dx was None')
@@ -539,6 +540,7 @@ def to_fpm_and_back_backprop(wavefunction, dx, wavelength, efl, fpm, fpm_dx=None
     if isinstance(fpm, Wavefront):
         fpm_samples = fpm.data.shape
         fpm_dx = fpm.dx
+        fpm = fpm.data  # ndarray * Wavefront is not defined
     else:
         if fpm_dx is None:
             raise ValueError('fpm was not a Wavefront and fpm_dx was None')
